@@ -26,6 +26,10 @@ CLAIMS = {
    text="Static decision of the filtration-order clause of cubical complexes: is_before_in_filtration equals, on all 27 valuations of its keys, the lexicographic strict order (value, dimension, cell index): non-decreasing, faces first among equal values, total; both GUDHI_USE_TBB configurations sort the same range with it; it is pure. Boundary/coboundary incidences, dd=0, lower-star values and periodic index arithmetic are not decided (value-level).",
    note="Trusted: clang 14 parser, trichotomy of the cell values. Only the order clause of C13 is claimed.",
    tech="finite predicate enumeration over the comparator AST, sibling-arm agreement, purity", ref="DESIGN.md 4/C13"),
+ "C16": dict(
+   text="Static decision of one information-flow clause of the toplex maps: in every loop over maximal simplices that erases the current toplex and re-inserts simplices in the same iteration (remove_simplex, remove_vertex, contraction, unitary_collapse, eager and lazy), each re-inserted simplex is data-dependent on the erased toplex (def-use closure over the loop body) - the faces that survive a removal are a function of the destroyed toplex. Membership answers for all histories, the maximality/no-duplicate invariant and eager/lazy agreement are not decided.",
+   note="Trusted: clang 14 parser; dependence is syntactic def-use (an over-approximation of data dependence).",
+   tech="def-use / information-flow rule over the clang AST (E10)", ref="DESIGN.md 4/C16"),
 }
 
 NA = {
